@@ -34,7 +34,7 @@ func (f *frame) execBlock(b *ssa.BasicBlock, st *state, reach string) {
 				s := f.val(r)
 				vals = append(vals, &sym{t: f.symTerm(s), typ: r.Type(), tuple: s.tuple})
 			}
-			f.rets = append(f.rets, retRec{reach: reach, vals: vals, st: st})
+			f.rets = append(f.rets, retRec{pos: x.Pos(), reach: reach, vals: vals, st: st})
 		case *ssa.Panic:
 			if vc.safety {
 				vc.oblige("safety:panic@"+vc.w.pos(x.Pos()), "", reach, "false", x.Pos(), "explicit panic is unreachable", nil)
@@ -834,7 +834,6 @@ func (f *frame) ordinalOf(com *ssa.CallCommon, pos token.Pos) int {
 	return len(ps)
 }
 
-
 func (f *frame) calleeName(com *ssa.CallCommon) (abs string, callee *ssa.Function) {
 	if com.IsInvoke() {
 		return com.Method.FullName(), nil
@@ -1102,9 +1101,17 @@ func (f *frame) applyContract(c *Contract, rel string, callee *ssa.Function, arg
 		}
 	}
 	if c.FreshRes && len(results) > 0 && vc.w.so.sortOf(results[0].typ) == "Ref" {
+		// fresh: not allocated before the call, allocated after it.  A callee whose frame includes heap(alloc) has had
+		// the allocation set havocked (monotonically): the result is allocated there; otherwise the result is
+		// added to the unchanged set.
+		aPre := vc.hget(pre, vc.allocKey())
+		vc.assume(reach, fmt.Sprintf("(and (not (= %s nil)) (not (select %s %s)))", results[0].t, aPre, results[0].t))
 		a := vc.hget(st, vc.allocKey())
-		vc.assume(reach, fmt.Sprintf("(and (not (= %s nil)) (not (select %s %s)))", results[0].t, a, results[0].t))
-		vc.hset(st, vc.allocKey(), fmt.Sprintf("(store %s %s true)", a, results[0].t))
+		if a != aPre {
+			vc.assume(reach, fmt.Sprintf("(select %s %s)", a, results[0].t))
+		} else {
+			vc.hset(st, vc.allocKey(), fmt.Sprintf("(store %s %s true)", a, results[0].t))
+		}
 	}
 	if len(c.Results) > 0 && len(c.Results) != len(results) {
 		vc.oblige("bind", "results_"+mangle(rel), "true", "false", pos, fmt.Sprintf("contract of %s names %d results, call yields %d", rel, len(c.Results), len(results)), nil).Trivial = false
@@ -1546,7 +1553,6 @@ func sortedKeys(m map[string]bool) []string {
 	return ks
 }
 
-
 // constArray: an array that maps every index to the given term.  Literal values use (as const ...); other
 // terms (nil, zero structs) use a declared array with a quantified axiom, which every installed solver accepts.
 func (vc *FnVC) constArray(idxSort, elemSort, term string) string {
@@ -1566,7 +1572,6 @@ func (vc *FnVC) constArray(idxSort, elemSort, term string) string {
 	}
 	return name
 }
-
 
 // nativeSprintf models fmt.Sprintf(format, args...) when the format is a string literal made of plain text and
 // %s / %d / %v verbs: with exactly as many arguments as verbs, a string argument under %s or %v prints as itself and
@@ -1643,7 +1648,6 @@ func (f *frame) nativeSprintf(args []*sym, st *state, reach string) *sym {
 	vc.assume(reach, imp(fmt.Sprintf("(= (slen %s) %d)", sl, len(verbs)), eq(res, cat)))
 	return &sym{t: res, typ: types.Typ[types.String]}
 }
-
 
 // funcSetCall handles a dynamic call inside a function whose contract declares `funcset G = f1, f2, ...`: the
 // callee is one of the listed functions (the table G is immutable and initialised with exactly these, checked
@@ -1787,7 +1791,6 @@ func (vc *FnVC) validateFuncSet(c *Contract) string {
 	return ""
 }
 
-
 // preserveLocals: after a havoc-everything call, the cells of this function's local variables whose address does
 // not escape (ssa.Alloc with Heap == false) and was not handed to the call still hold what they held before.
 func (f *frame) preserveLocals(pre, st *state, args []*sym) {
@@ -1830,7 +1833,6 @@ func (f *frame) preserveLocals(pre, st *state, args []*sym) {
 		}
 	}
 }
-
 
 // havocInterior: a callee that receives the address of a slice/array element or of a cell may write through it;
 // the contract speaks about the opaque pointer, so the location itself is havocked (sound over-approximation).
